@@ -50,6 +50,10 @@ def lib():
         if not here.startswith(os.path.realpath(src) + os.sep):
             raise HarnessError("ecdsa imported from %s, wanted %s" % (here, src))
         _LIB["ecdsa"] = ecdsa
+        # decided once, before any run registers anything (a verdict taken in
+        # the middle of a run would make later runs depend on that run)
+        from . import libx
+        libx.toy_der_ok()
     return _LIB["ecdsa"]
 
 
@@ -312,12 +316,115 @@ def library_exception(prop, ex):
             last.tb_lineno))
 
 
+# ------------------------------------------- process-history differential --
+# The normalised results of a run (out["rdigest"]) must not depend on what
+# the same interpreter did before: hidden module-level state in the library (a
+# cache keyed too coarsely, a memo, a counter) is a history too.  N runs are
+# executed in a fresh interpreter in forward order and in another one in
+# reversed order (different PYTHONHASHSEED); per-run result digests must agree.
+
+def _history_worker(modname, seed, tier, n, order):
+    lib()
+    mod = load_prop(modname)
+    idx = list(range(n))
+    if order == "rev":
+        idx.reverse()
+    res = {}
+    for i in idx:
+        prog = mod.generate(derive(seed, mod.ID + "-hist", tier, i), tier)
+        out = execute_any(mod, prog)
+        v = out.get("violation")
+        res[str(i)] = [out.get("rdigest"), v["cls"] if v else None]
+    print("RESULT " + json.dumps(res, sort_keys=True))
+
+
+def _alone_worker(modname):
+    lib()
+    mod = load_prop(modname)
+    prog = json.loads(sys.stdin.read())
+    print("RD %s" % execute_any(mod, prog).get("rdigest"))
+
+
+def history_differential(mod, tier, seed, n):
+    t0 = time.time()
+    name = mod.__name__.rsplit(".", 1)[1]
+    outs = []
+    for hs, order in (("11", "fwd"), ("424242", "rev")):
+        env = dict(os.environ, PYTHONHASHSEED=hs)
+        p = subprocess.run(
+            [sys.executable, "-B", "-c",
+             "import sys; sys.path.insert(0, %r); from dsim import core; "
+             "core._history_worker(%r, %d, %r, %d, %r)"
+             % (VERIF, name, seed, tier, n, order)],
+            capture_output=True, text=True, env=env, timeout=3000)
+        line = [l for l in p.stdout.splitlines() if l.startswith("RESULT ")]
+        if p.returncode or not line:
+            raise HarnessError("history worker failed: %s" % p.stderr[-800:])
+        outs.append(json.loads(line[0][7:]))
+    viols = []
+    diff = sorted(int(i) for i in outs[0] if outs[0][i] != outs[1][i])
+    if diff:
+        i = diff[0]
+        # in the reversed order run i was preceded by runs n-1 .. i+1
+        hist_idx = list(range(n - 1, i, -1)) + [i]
+        progs = [mod.generate(derive(seed, mod.ID + "-hist", tier, j), tier)
+                 for j in hist_idx]
+        v = violation(
+            mod.ID, "process-history", "results-differ",
+            "run %d gives result digest %r when the interpreter executed "
+            "runs 0..%d before it, and %r when it executed runs %d..%d before "
+            "it: some result depends on hidden process-global state in the "
+            "library" % (i, outs[0][str(i)][0], i - 1, outs[1][str(i)][0],
+                         n - 1, i + 1))
+        viols.append(dict(index=-1 - i, run_seed=0,
+                          program=dict(multi=progs, differential=True,
+                                       alone=progs[-1]),
+                          violation=v))
+    return dict(evaluations=2 * n, distinct_nontrivial=n,
+                samples=[dict(kind="process-history differential", runs=n,
+                              orders=["forward", "reversed"],
+                              differing_runs=diff[:5])],
+                wall_s=time.time() - t0, violations=viols,
+                report=dict(process_history_runs=n, differing=len(diff)))
+
+
+def _execute_differential(mod, prog):
+    """Replay of a process-history finding: run the whole sequence here and
+    compare the last run's result digest with the digest of the same program
+    executed on its own in a fresh interpreter."""
+    name = mod.__name__.rsplit(".", 1)[1]
+    out = new_outcome()
+    last = None
+    for p_ in prog["multi"]:
+        last = execute_any(mod, p_)
+        if last.get("violation"):
+            return last
+    p = subprocess.run(
+        [sys.executable, "-B", "-c",
+         "import sys; sys.path.insert(0, %r); from dsim import core; "
+         "core._alone_worker(%r)" % (VERIF, name)],
+        input=json.dumps(jsonable(prog["alone"])), capture_output=True,
+        text=True, timeout=600, env=dict(os.environ, PYTHONHASHSEED="5"))
+    line = [l for l in p.stdout.splitlines() if l.startswith("RD ")]
+    if not line:
+        raise HarnessError("differential judge failed: " + p.stderr[-500:])
+    alone = line[0][3:]
+    if last is not None and str(last.get("rdigest")) != alone:
+        out["violation"] = violation(
+            mod.ID, "process-history", "results-differ",
+            "after %d earlier runs in this interpreter the last run's result "
+            "digest is %s; executed alone in a fresh interpreter it is %s"
+            % (len(prog["multi"]) - 1, last.get("rdigest"), alone))
+    return out
+
+
 def execute_any(mod, prog):
     """Execute a program, or - for {"multi": [...]} - a sequence of programs
     in this one process (a history across runs: hidden process-global state
     in the library may carry over).  Returns the first violating outcome."""
-    if isinstance(prog, dict) and "multi" in prog \
-            and not prog.get("differential"):
+    if isinstance(prog, dict) and prog.get("differential"):
+        return _execute_differential(mod, prog)
+    if isinstance(prog, dict) and "multi" in prog:
         out = new_outcome()
         for p in prog["multi"]:
             out = execute_any(mod, p)
@@ -618,6 +725,19 @@ def run_check(mod, tier, seed):
     extra_viol = []
     if hasattr(mod, "extra"):
         extra = mod.extra(tier, seed)
+        extra_viol = extra.get("violations", [])
+    hd = getattr(mod, "HISTORY_DIFF", None)
+    if hd and not extra_viol:
+        h = history_differential(mod, tier, seed, hd[tier])
+        if extra is None:
+            extra = h
+        else:
+            for k_ in ("evaluations", "distinct_nontrivial", "wall_s"):
+                extra[k_] = extra.get(k_, 0) + h[k_]
+            extra["samples"] = extra.get("samples", []) + h["samples"]
+            extra["violations"] = extra.get("violations", []) + h["violations"]
+            extra.setdefault("report", {}).update(h["report"])
+            extra["exhaustive"] = extra.get("exhaustive", False)
         extra_viol = extra.get("violations", [])
     total = run_batch(mod, tier, seed,
                       b["runs"] if not extra_viol else min(b["runs"], 200),
